@@ -40,7 +40,7 @@ func Translate(name string, src []byte, root *corpus.Root, alt *recipe.Decisions
 	if err != nil {
 		return nil, InvalidSrc, err.Error()
 	}
-	o := ast2rec.Options{RealName: root.RealName, Exported: root.Exported, Alt: alt}
+	o := ast2rec.Options{RealName: root.RealName, Exported: root.Exported, Alt: alt, Std: func(p string) bool { return wellKnownStd[p] }}
 	if stats {
 		o.Stats = ast2rec.NewStats()
 	}
@@ -103,4 +103,14 @@ func Short(s string, n int) string {
 		return s[:n] + "…"
 	}
 	return s
+}
+
+// wellKnownStd: standard library packages every release of jennifer's name table holds (the translator may
+// leave their name hint out: jennifer knows what they declare). A package the table lacks would come out with
+// an explicit alias, which is right for jennifer and a difference for the round trip — hence a fixed list.
+var wellKnownStd = map[string]bool{
+	"fmt": true, "os": true, "strings": true, "bytes": true, "errors": true, "io": true, "sort": true, "strconv": true, "sync": true, "time": true,
+	"math": true, "math/rand": true, "math/rand/v2": true, "math/big": true, "math/bits": true, "text/template": true, "html/template": true,
+	"unicode": true, "unicode/utf8": true, "unicode/utf16": true, "net/http": true, "net/url": true, "encoding/json": true, "encoding/binary": true,
+	"path/filepath": true, "reflect": true, "runtime": true, "context": true, "bufio": true, "regexp": true, "testing": true, "crypto/rand": true, "go/ast": true, "go/token": true,
 }
